@@ -23,6 +23,33 @@ class SChar(object):
     def __repr__(self): return '<%s>' % self.code
 
 
+class DChar(SChar):
+    """Symbolic character with a known finite set of possible code points
+    (`dom`, a frozenset of ints).  Create with dom_char(), which puts the
+    membership constraint on the path condition; comparisons against characters
+    outside the domain are then decided without a solver call.  (C05: digit
+    cells and sign cells of printed table rows.)"""
+    __slots__ = ('dom',)
+    def __init__(self, code, dom):
+        self.code = code
+        self.dom = frozenset(dom)
+    def __repr__(self): return '<%s:%s>' % (self.code, ''.join(chr(d) for d in sorted(self.dom)))
+
+_DIGIT_CODES = frozenset(range(48, 58))
+
+def dom_char(name, dom):
+    """A fresh DChar named `name` whose code is constrained (on the current
+    path) to the code points / characters in `dom`."""
+    dom = frozenset(ord(d) if isinstance(d, str) else builtins.int(d) for d in dom)
+    e = z3.Int(name)
+    lo, hi = builtins.min(dom), builtins.max(dom)
+    if builtins.len(dom) == hi - lo + 1:
+        sym.ctx().add(z3.And(e >= lo, e <= hi))
+    else:
+        sym.ctx().add(z3.Or(*[e == d for d in sorted(dom)]))
+    return DChar(e, dom)
+
+
 class Tok(object):
     bounds = (None, None)
     """A rendered number: value term, format, cell count n (concrete),
@@ -80,6 +107,11 @@ def cell_is_ws(c):
     if isinstance(c, TokCell):
         return z3.simplify(c.tok.pad_cond(c.k))
     e = c.code
+    if isinstance(c, DChar):
+        ws = [w for w in _WS if w in c.dom]
+        if not ws: return False
+        if builtins.len(ws) == builtins.len(c.dom): return True
+        return z3.Or(*[e == w for w in ws]) if builtins.len(ws) > 1 else (e == ws[0])
     return z3.Or(*[e == w for w in _WS])
 
 def _zb(x):
@@ -89,6 +121,14 @@ def cells_equal(a, b):
     """python bool or z3 Bool."""
     if isinstance(a, str) and isinstance(b, str): return a == b
     if a is b: return True
+    if isinstance(a, DChar) or isinstance(b, DChar):
+        # domain-aware shortcuts (decided without the solver)
+        da = a.dom if isinstance(a, DChar) else (frozenset([ord(a)]) if isinstance(a, str) else None)
+        db = b.dom if isinstance(b, DChar) else (frozenset([ord(b)]) if isinstance(b, str) else None)
+        if da is not None and db is not None:
+            common = da & db
+            if not common: return False
+            if builtins.len(da) == 1 and builtins.len(db) == 1: return True
     if isinstance(a, TokCell) and isinstance(b, TokCell):
         ta, tb = a.tok, b.tok
         if ta is tb: return a.k == b.k
@@ -110,12 +150,22 @@ def tok_text_equal(ta, tb):
 
 class SStr(object):
     """Fixed-length symbolic string."""
-    __slots__ = ('cells', 'lflag', 'rflag')
+    __slots__ = ('cells', 'lflag', 'rflag', 'hv')
 
     def __init__(self, cells, lflag=False, rflag=False):
         self.cells = list(cells)
         self.lflag = lflag     # leading whitespace cells are to be ignored (lazy strip)
         self.rflag = rflag
+        self.hv = 0            # hash; non-zero only after pin() (see s_in on dicts / sets)
+
+    def pin(self, text):
+        """The path condition now says this string IS the concrete `text` (a
+        membership test against a hashed container of concrete keys came out
+        true): make the object concrete in place, with str's hash, so that a
+        following `container[self]` finds the key.  (Do not use on an object
+        that is itself stored as a key of a dict of symbolic names.)"""
+        self.cells = list(text); self.lflag = self.rflag = False
+        self.hv = hash(text)
 
     # -- construction helpers
     @staticmethod
@@ -140,7 +190,7 @@ class SStr(object):
             while cells and _truth(cell_is_ws(cells[-1])): cells.pop()
         return SStr(cells)
 
-    def __hash__(self): return 0
+    def __hash__(self): return self.hv
     def __len__(self):
         s = self._resolved()
         return builtins.len(s.cells)
@@ -284,6 +334,7 @@ class SStr(object):
         for c in s.cells:
             if isinstance(c, str): out.append(c.upper())
             elif isinstance(c, TokCell): out.append(c)
+            elif isinstance(c, DChar) and not any(97 <= d <= 122 for d in c.dom): out.append(c)
             else:
                 e = c.code
                 out.append(SChar(z3.If(z3.And(e >= 97, e <= 122), e - 32, e)))
@@ -294,6 +345,7 @@ class SStr(object):
         for c in s.cells:
             if isinstance(c, str): out.append(c.lower())
             elif isinstance(c, TokCell): out.append(c)
+            elif isinstance(c, DChar) and not any(65 <= d <= 90 for d in c.dom): out.append(c)
             else:
                 e = c.code
                 out.append(SChar(z3.If(z3.And(e >= 65, e <= 90), e + 32, e)))
@@ -322,6 +374,12 @@ class SStr(object):
     def isdigit(self):
         s = self._resolved()
         if not s.cells: return False
+        if any(isinstance(c, DChar) for c in s.cells):
+            known = [(c.isdigit() and c.isascii()) if isinstance(c, str) else
+                     (True if c.dom <= _DIGIT_CODES else (False if not (c.dom & _DIGIT_CODES) else None))
+                     if isinstance(c, DChar) else None for c in s.cells]
+            if any(k is False for k in known): return False
+            if all(k is True for k in known): return True
         return SBool(z3.And(*[z3.And(cell_code(c) >= 48, cell_code(c) <= 57) for c in s.cells]))
 
     def isspace(self):
@@ -329,8 +387,21 @@ class SStr(object):
         if not s.cells: return False
         return SBool(z3.And(*[_zb(cell_is_ws(c)) for c in s.cells]))
 
-    def find(self, sub):
-        raise Unsupported('SStr.find')
+    def find(self, sub, start=None, end=None):
+        """str.find for a one-character pattern: first position in [start, end)
+        whose cell equals it, -1 if none (forks on cells that may or may not
+        match; cells that cannot match are skipped without a solver call)."""
+        s = self._resolved()
+        sub = SStr.of(sub)._resolved()
+        if builtins.len(sub.cells) != 1: raise Unsupported('SStr.find of a pattern that is not one character')
+        n = builtins.len(s.cells)
+        lo, hi, _ = slice(None if start is None else builtins.int(start),
+                          None if end is None else builtins.int(end)).indices(n)
+        for k in range(lo, hi):
+            r = cells_equal(s.cells[k], sub.cells[0])
+            if r is False: continue
+            if r is True or _truth(r): return k
+        return -1
 
     def index(self, sub):
         """first position of a one-character string (forks per position)."""
@@ -344,8 +415,31 @@ class SStr(object):
     def partition(self, sep):
         raise Unsupported('SStr.partition')
 
-    def split(self, sep=None):
-        raise Unsupported('SStr.split')
+    def split(self, sep=None, maxsplit=-1):
+        """str.split() on whitespace (forks on cells that may or may not be
+        whitespace); other separators are not modelled."""
+        if sep is not None or maxsplit != -1: raise Unsupported('SStr.split with a separator / maxsplit')
+        out, cur = [], []
+        lazy = [False]
+        def flush():
+            if cur: out.append(_mk(list(cur), lazy[0], False)); del cur[:]
+            lazy[0] = False
+        cells = self.cells
+        for k, c in enumerate(cells):
+            w = cell_is_ws(c)
+            if w is not False and w is not True and not cur and k + 1 < builtins.len(cells) \
+               and cell_is_ws(cells[k + 1]) is False:
+                # a cell that is either whitespace or the first character of the word that
+                # certainly starts at the next cell: kept as a lazily stripped leading cell
+                # (same word list either way, no fork)
+                cur.append(c); lazy[0] = True
+                continue
+            if w is not False and (w is True or _truth(w)):
+                flush()
+            else:
+                cur.append(c)
+        flush()
+        return out
 
     def encode(self, *a):
         raise Unsupported('SStr.encode (C boundary)')
@@ -358,7 +452,9 @@ class SStr(object):
                                ',flags=%d%d' % (self.lflag, self.rflag) if self.lflag or self.rflag else '')
 
     def __str__(self):
-        raise Unsupported('str() of SStr through builtin')
+        # only reached from exception messages / printing (str() inside the reloaded
+        # modules is routed to sstr): give a readable placeholder, never raise
+        return repr(self)
 
 
 def _mk(cells, lflag=False, rflag=False):
@@ -690,7 +786,30 @@ def s_in(a, b):
     if isinstance(b, (str, SStr)) and isinstance(a, (str, SStr)) and \
        (isinstance(a, SStr) or isinstance(b, SStr)):
         return contains(b, a)
+    if isinstance(a, SStr) and isinstance(b, (dict, set, frozenset)):
+        return _in_hashed(a, b)
     return a in b
+
+def _in_hashed(a, b):
+    """symbolic string `in` a dict / set: a hashed lookup would look at the
+    constant hash of the proxy and miss every concrete key without asking the
+    solver.  Fork per key (sorted, for determinism); on the branch where the
+    string equals a concrete key it is pinned to that key, so that a following
+    `b[a]` works.  Symbolic keys (hash 0) are compared as usual."""
+    if a.hv: return a.concrete() in b
+    keys = [k for k in b if isinstance(k, (str, SStr))]
+    keys.sort(key=lambda k: (0, k) if isinstance(k, str) else (1, ''))
+    for k in keys:
+        r = a == k
+        if isinstance(r, bool):
+            if r:
+                if isinstance(k, str): a.pin(k)
+                return True
+            continue
+        if bool(r):
+            if isinstance(k, str): a.pin(k)
+            return True
+    return False
 
 def s_not_in(a, b):
     r = s_in(a, b)
@@ -796,6 +915,177 @@ def _charstr_read(s, want):
     return SInt(val) if want == 'int' else SReal(z3.ToReal(val))
 
 
+# -- numbers printed with concrete punctuation and symbolic digit / sign cells
+#    (C05: rows of listing tables).  Additive: only strings all of whose
+#    symbolic cells are DChar cells over digits or over a subset of ' -+' come here.
+
+_SIGN_CODES = frozenset([32, 43, 45])
+pow10 = z3.Function('pow10', z3.IntSort(), z3.RealSort())
+
+def pow10_term(E):
+    """10**E for an integer term: exact rational when E is a numeral, else the
+    uninterpreted pow10(E) (users add pow10_axioms over the range they need)."""
+    E = z3.simplify(E) if not isinstance(E, builtins.int) else z3.IntVal(E)
+    if z3.is_int_value(E):
+        return z3.RealVal(Fraction(10) ** E.as_long())
+    return pow10(E)
+
+def pow10_axioms(lo, hi):
+    """Ground facts pow10(k) == 10**k for lo <= k <= hi (hypotheses for an obligation)."""
+    return [pow10(k) == z3.RealVal(Fraction(10) ** k) for k in range(lo, hi + 1)]
+
+def _numcells_applicable(s):
+    some = False
+    for c in s.cells:
+        if isinstance(c, str): continue
+        if not isinstance(c, DChar): return False
+        if not (c.dom <= _DIGIT_CODES or c.dom <= _SIGN_CODES): return False
+        some = True
+    return some
+
+_DV_CACHE = {}
+
+def _digits_value(cells):
+    """integer value of a run of digit cells (concrete digits and digit DChars);
+    memoised per process (the terms do not depend on the path)."""
+    key = tuple(c if isinstance(c, str) else c.code.get_id() for c in cells)
+    hit = _DV_CACHE.get(key)
+    if hit is not None and builtins.len(hit[0]) == builtins.len(cells) and \
+       all((x is y) or (isinstance(x, str) and x == y) or
+           (not isinstance(x, str) and not isinstance(y, str) and x.code.eq(y.code)) for x, y in zip(hit[0], cells)):
+        return hit[1]
+    n = builtins.len(cells)
+    const = 0
+    terms = []
+    for i, c in enumerate(cells):
+        w = 10 ** (n - 1 - i)
+        if isinstance(c, str): const += builtins.int(c) * w
+        else:
+            terms.append(c.code * w if w != 1 else c.code)
+            const -= 48 * w
+    if not terms: v = z3.IntVal(const)
+    else:
+        v = z3.Sum(*terms) if builtins.len(terms) > 1 else terms[0]
+        if const != 0: v = v + const
+    _DV_CACHE[key] = (list(cells), v)
+    return v
+
+def _num_skeleton_parse(cells, want):
+    """cells: concrete characters and digit-class DChars only.  Acceptance is
+    CPython's own float()/int() on the skeleton with every symbolic digit
+    written as '0' (acceptance depends only on character classes).  Returns
+    ('const', value) when nothing is symbolic, else
+    ('num', sign, mantissa digit cells, number of fraction digits, exponent sign, exponent digit cells)."""
+    skel = ''.join(c if isinstance(c, str) else '0' for c in cells)
+    if want == 'int': builtins.int(skel)        # raises ValueError exactly when int() would
+    else: builtins.float(skel)                  # raises ValueError exactly when float() would
+    if all(isinstance(c, str) for c in cells):
+        return ('const', builtins.int(skel) if want == 'int' else builtins.float(skel))
+    i, j = 0, builtins.len(cells)
+    while isinstance(cells[i], str) and cells[i].isspace(): i += 1
+    while isinstance(cells[j - 1], str) and cells[j - 1].isspace(): j -= 1
+    core = [c for c in cells[i:j] if not (isinstance(c, str) and c == '_')]
+    sgn = 1
+    if isinstance(core[0], str) and core[0] in '+-':
+        sgn = -1 if core[0] == '-' else 1
+        core = core[1:]
+    def is_e(c): return isinstance(c, str) and c in 'eE'
+    def is_pt(c): return isinstance(c, str) and c == '.'
+    k = 0
+    ip, fp, ex = [], [], []
+    while k < builtins.len(core) and not is_pt(core[k]) and not is_e(core[k]):
+        ip.append(core[k]); k += 1
+    if k < builtins.len(core) and is_pt(core[k]):
+        k += 1
+        while k < builtins.len(core) and not is_e(core[k]):
+            fp.append(core[k]); k += 1
+    esgn = 1
+    if k < builtins.len(core):      # exponent letter
+        k += 1
+        if isinstance(core[k], str) and core[k] in '+-':
+            esgn = -1 if core[k] == '-' else 1
+            k += 1
+        ex = core[k:]
+    for c in ip + fp + ex:
+        if isinstance(c, str) and not c.isdigit():
+            raise Unsupported('number skeleton %r not understood' % skel)
+    return ('num', sgn, ip + fp, builtins.len(fp), esgn, ex)
+
+def _same_cells(a, b):
+    return builtins.len(a) == builtins.len(b) and all((x is y) or (isinstance(x, str) and x == y) for x, y in zip(a, b))
+
+def _numcells_read(s, want):
+    """float()/int() of a string whose punctuation is concrete and whose
+    symbolic cells are digit cells and sign cells (DChar).  A sign cell is
+    handled without forking when both of its values give an accepted number
+    with the same digits (the usual leading sign position); otherwise the
+    path forks on that cell.  Value: sign * digits * 10**exponent (exact when
+    the exponent digits are concrete, pow10(E) otherwise)."""
+    cx = sym.ctx()
+    cells = list(s.cells)
+    def attempt(cs):
+        try: return _num_skeleton_parse(cs, want)
+        except ValueError: return None
+    def build(sgn, r):
+        M = _digits_value(r[2])
+        if r[5]:
+            ev = _digits_value(r[5])
+            E = (ev if r[4] > 0 else -ev) - r[3] if r[3] else (ev if r[4] > 0 else -ev)
+        else:
+            E = z3.IntVal(-r[3])
+        return _numval(sgn, M, E, want)
+    def rec(cs):
+        S = [i for i, c in enumerate(cs) if isinstance(c, DChar) and not c.dom <= _DIGIT_CODES]
+        if not S:
+            r = _num_skeleton_parse(cs, want)
+            if r[0] == 'const': return r[1]
+            return build(r[1], r)
+        if builtins.len(S) == 1:
+            i = S[0]; c = cs[i]
+            doms = sorted(c.dom)
+            outs = [attempt(cs[:i] + [chr(v)] + cs[i + 1:]) for v in doms]
+            if all(o is None for o in outs):
+                raise ValueError('could not convert string to %s (symbolic sign cell)' % want)
+            o0 = outs[0]
+            if all(o is not None and o[0] == 'num' for o in outs) and \
+               all(_same_cells(o[2], o0[2]) and o[3] == o0[3] and o[4] == o0[4] and _same_cells(o[5], o0[5]) for o in outs):
+                sg = z3.IntVal(outs[-1][1])
+                for v, o in list(zip(doms, outs))[-2::-1]:
+                    sg = z3.If(c.code == v, z3.IntVal(o[1]), sg)
+                return build(z3.simplify(sg), o0)
+        i = S[0]; c = cs[i]
+        doms = sorted(c.dom)
+        for v in doms[:-1]:
+            if cx.branch(c.code == v):
+                return rec(cs[:i] + [chr(v)] + cs[i + 1:])
+        return rec(cs[:i] + [chr(doms[-1])] + cs[i + 1:])
+    return rec(cells)
+
+def _numval(sgn, M, E, want):
+    if want == 'int':
+        if not (z3.is_int_value(z3.simplify(E)) and z3.simplify(E).as_long() == 0):
+            raise Unsupported('int() of a number with point/exponent')   # int() has already rejected these
+        return SInt(z3.simplify(sgn * M))
+    p = pow10_term(E)
+    if not z3.is_rational_value(p):
+        sym.ctx().add(p > 0)
+    term = sgn * z3.ToReal(M) * p
+    reg = sym.ctx().__dict__.setdefault('_num_parts', {})
+    reg[term.get_id()] = (term, sgn if not isinstance(sgn, builtins.int) else z3.IntVal(sgn), M, E)
+    return SReal(term)
+
+
+def num_parts(x):
+    """(sign, digits, exponent) integer terms of a value produced by the
+    numeric-cell reader on this context (value = sign*digits*10**exponent),
+    or None for any other value."""
+    e = x.e if isinstance(x, SReal) else x
+    if not z3.is_expr(e): return None
+    hit = getattr(sym.ctx(), '_num_parts', {}).get(e.get_id())
+    if hit is not None and hit[0].eq(e): return hit[1:]
+    return None
+
+
 def sfloat(x=0.0):
     from .bstr import BStr
     if isinstance(x, BStr):
@@ -807,6 +1097,7 @@ def sfloat(x=0.0):
     if isinstance(x, SStr):
         if any(isinstance(c, TokCell) for c in x.cells):
             return _token_read(x, 'float')
+        if _numcells_applicable(x): return _numcells_read(x, 'float')
         return _charstr_read(x, 'float')
     return builtins.float(x)
 
@@ -827,6 +1118,7 @@ def sint(x=0, *a):
     if isinstance(x, SStr):
         if any(isinstance(c, TokCell) for c in x.cells):
             return _token_read(x, 'int')
+        if _numcells_applicable(x): return _numcells_read(x, 'int')
         return _charstr_read(x, 'int')
     return builtins.int(x, *a)
 
